@@ -39,6 +39,7 @@ var errNames = []string{"sentinel", "permdenied", "notexist"}
 
 type ftask struct {
 	Prefix []int
+	Lo, Hi int  // last letters [Lo,Hi) of the alphabet only (Hi == 0: all): a short frontier is cut into slices so that every worker has work
 	Handle bool // handle programmes (expandHandle) instead of one level of the history tree
 	Quit   bool
 }
@@ -86,13 +87,18 @@ func maybeFaultWorker() {
 	}
 }
 
-func serveFault(base string) {
+func serveFault(spec string) {
 	in := gob.NewDecoder(bufio.NewReader(os.Stdin))
 	w := bufio.NewWriter(os.Stdout)
 	out := gob.NewEncoder(w)
 
-	ok := newSys(base, "okfunc")
-	ft := newSys(base, "fault")
+	base, stack := spec, ""
+	if i := strings.IndexByte(spec, '/'); i >= 0 {
+		base, stack = spec[:i], spec[i+1:]
+	}
+
+	ok := newSys(base, "okfunc", stack)
+	ft := newSys(base, "fault", stack)
 
 	for {
 		var t ftask
@@ -105,7 +111,7 @@ func serveFault(base string) {
 		if t.Handle {
 			r = expandHandle(ok, ft, t.Prefix)
 		} else {
-			r = expandFault(ok, ft, t.Prefix)
+			r = expandFault(ok, ft, t.Prefix, t.Lo, t.Hi)
 		}
 
 		if err := out.Encode(&r); err != nil {
@@ -165,7 +171,7 @@ func (b *violBook) add(sig map[string]string, replay func() any) {
 	b.order = append(b.order, k)
 }
 
-func expandFault(ok, ft *sys, prefix []int) (r freply) {
+func expandFault(ok, ft *sys, prefix []int, lo, hi int) (r freply) {
 	r.Covered, r.Injected, r.Invoked = map[int]int{}, map[int]int{}, map[int]bool{}
 	r.Classes, r.Outcomes, r.TraceLens = map[string]int{}, map[string]int{}, map[int]int{}
 
@@ -200,6 +206,10 @@ func expandFault(ok, ft *sys, prefix []int) (r freply) {
 	prefixTrace := append([]consRec{}, ok.trace...)
 
 	for o := range ok.ops {
+		if hi > 0 && (o < lo || o >= hi) {
+			continue
+		}
+
 		ok.trace = ok.trace[:plen]
 		ok.nsteps = len(prefix)
 
@@ -226,7 +236,7 @@ func expandFault(ok, ft *sys, prefix []int) (r freply) {
 			v := v
 			book.add(v.Sig, func() any {
 				return map[string]any{
-					"system": ok.baseName, "plan": "okfunc", "history": histStrings(ok, hist),
+					"system": ok.baseName, "stack": ok.stack, "plan": "okfunc", "history": histStrings(ok, hist),
 					"trace": traceStrings(full), "result_of_last_call": freeRes, "detail": v.Detail,
 				}
 			})
@@ -297,7 +307,7 @@ func expandFault(ok, ft *sys, prefix []int) (r freply) {
 					faulted := traceStrings(ft.trace)
 					book.add(v.sig, func() any {
 						return map[string]any{
-							"system": ok.baseName, "plan": "fault", "history": histStrings(ok, hist), "fault": plan,
+							"system": ok.baseName, "stack": ok.stack, "plan": "fault", "history": histStrings(ok, hist), "fault": plan,
 							"fault_free_trace": traceStrings(full), "faulted_trace": faulted,
 							"results": results, "detail": v.detail,
 						}
@@ -306,7 +316,7 @@ func expandFault(ok, ft *sys, prefix []int) (r freply) {
 
 				if len(r.Samples) < 2 && k == len(full)-1 && len(full)-plen > 1 {
 					b, _ := json.Marshal(map[string]any{
-						"system": ok.baseName, "history": histStrings(ok, hist), "fault": plan,
+						"system": ok.baseName, "stack": ok.stack, "history": histStrings(ok, hist), "fault": plan,
 						"fault_free_trace": traceStrings(full), "results": results, "class": ft.faultClass,
 					})
 					r.Samples = append(r.Samples, b)
@@ -395,7 +405,7 @@ func expandFault(ok, ft *sys, prefix []int) (r freply) {
 				pres := append([]string{}, presults...)
 				book.add(v.sig, func() any {
 					return map[string]any{
-						"system": ok.baseName, "plan": "fault", "history": histStrings(ok, prefix), "fault": plan,
+						"system": ok.baseName, "stack": ok.stack, "plan": "fault", "history": histStrings(ok, prefix), "fault": plan,
 						"fault_free_trace": traceStrings(prefixTrace), "results": pres, "detail": v.detail,
 					}
 				})
@@ -433,7 +443,7 @@ func expandFault(ok, ft *sys, prefix []int) (r freply) {
 					faulted := traceStrings(ft.trace)
 					book.add(v.Sig, func() any {
 						return map[string]any{
-							"system": ok.baseName, "plan": "fault", "history": histStrings(ok, hist), "fault": plan,
+							"system": ok.baseName, "stack": ok.stack, "plan": "fault", "history": histStrings(ok, hist), "fault": plan,
 							"fault_free_trace": traceStrings(fulls[o]), "faulted_trace": faulted,
 							"results": res, "detail": v.Detail,
 						}
@@ -599,7 +609,7 @@ func expandHandle(ok, ft *sys, prefix []int) (r freply) {
 			v := v
 			book.add(v.Sig, func() any {
 				return map[string]any{
-					"system": ok.baseName, "plan": "okfunc", "history": histStrings(ok, histF),
+					"system": ok.baseName, "stack": ok.stack, "plan": "okfunc", "history": histStrings(ok, histF),
 					"trace": traceStrings(full), "result_of_last_call": freeRes, "detail": v.Detail,
 				}
 			})
@@ -684,7 +694,7 @@ func expandHandle(ok, ft *sys, prefix []int) (r freply) {
 							pres := append([]string{}, presults...)
 							book.add(v.sig, func() any {
 								return map[string]any{
-									"system": ok.baseName, "plan": "fault", "history": histStrings(ok, histF), "fault": plan,
+									"system": ok.baseName, "stack": ok.stack, "plan": "fault", "history": histStrings(ok, histF), "fault": plan,
 									"fault_free_trace": traceStrings(full), "results": pres, "detail": v.detail,
 								}
 							})
@@ -713,7 +723,7 @@ func expandHandle(ok, ft *sys, prefix []int) (r freply) {
 							h, rs, faulted := append([]int{}, hist...), append([]string{}, res...), traceStrings(ft.trace)
 							book.add(v.Sig, func() any {
 								return map[string]any{
-									"system": ok.baseName, "plan": "fault", "history": histStrings(ok, h), "fault": plan,
+									"system": ok.baseName, "stack": ok.stack, "plan": "fault", "history": histStrings(ok, h), "fault": plan,
 									"fault_free_trace": traceStrings(full), "faulted_trace": faulted,
 									"results": rs, "detail": v.Detail,
 								}
@@ -741,7 +751,7 @@ func expandHandle(ok, ft *sys, prefix []int) (r freply) {
 
 					if len(r.Samples) < 1 && ok.ops[f].C.Op == "Close" && ok.ops[g].C.Op == "Write" {
 						b, _ := json.Marshal(map[string]any{
-							"system": ok.baseName, "history": histStrings(ok, hist), "fault": plan, "results": res,
+							"system": ok.baseName, "stack": ok.stack, "history": histStrings(ok, hist), "fault": plan, "results": res,
 							"class": ft.faultClass, "twin_followed_to_the_end": ft.twin != nil && !ft.twinOff,
 						})
 						r.Samples = append(r.Samples, b)
@@ -779,9 +789,9 @@ type fworker struct {
 	bw  *bufio.Writer
 }
 
-func startFaultWorker(base string) (*fworker, error) {
+func startFaultWorker(spec string) (*fworker, error) {
 	args := append([]string{}, os.Args[1:]...)
-	args = append(args, faultWorkerArg, base)
+	args = append(args, faultWorkerArg, spec)
 
 	cmd := exec.Command(os.Args[0], args...)
 	cmd.Stderr = os.Stderr
@@ -842,6 +852,7 @@ func (w *fworker) stop() {
 // faultEngine enumerates the histories of one base level by level.
 type faultEngine struct {
 	Base       string `json:"base"`
+	Stack      string `json:"stack,omitempty"` // stack.go; "": the FailFS is built on the base itself
 	probe      *sys
 	frontier   [][]int
 	seen       map[string]bool
@@ -872,12 +883,30 @@ type faultEngine struct {
 	Samples   []json.RawMessage   `json:"-"`
 }
 
-func newFaultEngine(base string) *faultEngine {
+func newFaultEngine(base, stack string) *faultEngine {
 	return &faultEngine{
-		Base: base, probe: newSys(base, "okfunc"), frontier: [][]int{nil}, seen: map[string]bool{}, Exhaustive: true,
+		Base: base, Stack: stack, probe: newSys(base, "okfunc", stack), frontier: [][]int{nil}, seen: map[string]bool{}, Exhaustive: true,
 		Covered: map[avfs.FnVFS]int{}, Injected: map[avfs.FnVFS]int{}, Invoked: map[avfs.FnVFS]bool{},
 		Classes: map[string]int{}, Outcomes: map[string]int{}, TraceLens: map[int]int{},
 	}
+}
+
+func (fe *faultEngine) crashSig() map[string]string {
+	m := map[string]string{"base": fe.Base, "plan": "fault", "kind": "worker-crash"}
+	if fe.Stack != "" {
+		m["stack"] = fe.Stack
+	}
+
+	return m
+}
+
+// label names the engine in the progress lines.
+func (fe *faultEngine) label() string {
+	if fe.Stack == "" {
+		return fe.Base
+	}
+
+	return fe.Base + "/" + fe.Stack
 }
 
 func (fe *faultEngine) workLeft() float64 {
@@ -908,7 +937,7 @@ func (fe *faultEngine) runPool(tasks []ftask, deadline time.Time, report func(si
 		go func() {
 			defer wg.Done()
 
-			w, err := startFaultWorker(fe.Base)
+			w, err := startFaultWorker(fe.Base + "/" + fe.Stack)
 			if err != nil {
 				mu.Lock()
 				fe.HarnessErr = err.Error()
@@ -940,14 +969,14 @@ func (fe *faultEngine) runPool(tasks []ftask, deadline time.Time, report func(si
 				if err != nil {
 					mu.Lock()
 					fe.Crashes++
-					report(map[string]string{"base": fe.Base, "plan": "fault", "kind": "worker-crash"},
-						map[string]any{"system": fe.Base, "prefix": histStrings(fe.probe, tasks[ti].Prefix), "detail": "worker process died while enumerating the histories with this prefix: " + err.Error()}, 1)
+					report(fe.crashSig(),
+						map[string]any{"system": fe.Base, "stack": fe.Stack, "prefix": histStrings(fe.probe, tasks[ti].Prefix), "detail": "worker process died while enumerating the histories with this prefix: " + err.Error()}, 1)
 					mu.Unlock()
 
 					_ = w.cmd.Process.Kill()
 					_ = w.cmd.Wait()
 
-					if w, err = startFaultWorker(fe.Base); err != nil {
+					if w, err = startFaultWorker(fe.Base + "/" + fe.Stack); err != nil {
 						mu.Lock()
 						fe.HarnessErr = err.Error()
 						mu.Unlock()
@@ -1025,10 +1054,36 @@ func (fe *faultEngine) runLevel(deadline time.Time, report func(sig map[string]s
 
 	var next [][]int
 
-	tasks := make([]ftask, len(fe.frontier))
-	for i, p := range fe.frontier {
-		tasks[i] = ftask{Prefix: p}
+	// one task per prefix; a frontier shorter than four tasks per worker (the
+	// first level has one prefix) is cut further into slices of the alphabet
+	nl := fe.probe.NumOps()
+	slices := 1
+
+	if want := 4 * runtime.NumCPU(); len(fe.frontier) < want {
+		slices = (want + len(fe.frontier) - 1) / len(fe.frontier)
 	}
+
+	if slices > nl {
+		slices = nl
+	}
+
+	var tasks []ftask
+
+	for _, p := range fe.frontier {
+		if slices == 1 {
+			tasks = append(tasks, ftask{Prefix: p})
+
+			continue
+		}
+
+		for c := 0; c < slices; c++ {
+			if lo, hi := c*nl/slices, (c+1)*nl/slices; hi > lo {
+				tasks = append(tasks, ftask{Prefix: p, Lo: lo, Hi: hi})
+			}
+		}
+	}
+
+	samples := map[int][][]byte{}
 
 	idx, aborted := fe.runPool(tasks, deadline, report, func(i int, r *freply) {
 		if len(fe.seen) == 0 {
@@ -1036,10 +1091,8 @@ func (fe *faultEngine) runLevel(deadline time.Time, report func(sig map[string]s
 			fe.States++
 		}
 
-		for _, sm := range r.Samples {
-			if len(fe.Samples) < 4 {
-				fe.Samples = append(fe.Samples, json.RawMessage(sm))
-			}
+		if len(r.Samples) > 0 && i < 64 {
+			samples[i] = r.Samples
 		}
 
 		for _, sc := range r.Succ {
@@ -1056,6 +1109,15 @@ func (fe *faultEngine) runLevel(deadline time.Time, report func(sig map[string]s
 		}
 	})
 
+	// samples of the lowest tasks: the same choice whatever the order of the replies
+	for i := 0; i < 64; i++ {
+		for _, sm := range samples[i] {
+			if len(fe.Samples) < 2*(fe.level+1) {
+				fe.Samples = append(fe.Samples, json.RawMessage(sm))
+			}
+		}
+	}
+
 	if fe.HarnessErr != "" {
 		fe.Exhaustive = false
 
@@ -1064,7 +1126,7 @@ func (fe *faultEngine) runLevel(deadline time.Time, report func(sig map[string]s
 
 	if aborted {
 		fe.Exhaustive = false
-		fe.Partial = fmt.Sprintf("histories of length %d: %d of %d prefixes done when the budget ended", fe.level+1, idx, len(fe.frontier))
+		fe.Partial = fmt.Sprintf("histories of length %d: %d of %d tasks (%d prefixes, %d slices of the alphabet each) done when the budget ended", fe.level+1, idx, len(tasks), len(fe.frontier), slices)
 
 		return
 	}
